@@ -6,11 +6,11 @@ use crate::iogen::*;
 use crate::json::J;
 use crate::rng::Rng;
 
-pub const RULE: &str = "case = one valid base file (generated with 1..3 records, or a bundled test file) of one format, from which malformed inputs are derived: EVERY prefix, single-byte substitution / deletion / insertion at every offset (quick: 3 sampled (operation, byte) pairs per offset; thorough: all) with bytes from {'>','[',']',':','/',tab,space,LF,CR,digit,letter,0x00,0x80,0xFF}, dropped final newline, ragged rows, header without matrix, matrix without header, huge numbers, duplicated symbol rows; plus fixed inputs (empty, whitespace, random bytes, invalid UTF-8). Each input is given to the reader of its format (1 in 4 also to the three other readers) through a Cursor or a random chunking schedule (BufReader capacity 1..300, short reads, injected Interrupted). Oracle: Reader::new and every next() run under catch_unwind (panic = violation); the consumer stops at the first Err / None and may receive at most (input length + 2) records; a reader polling end-of-input more than 10000 times is a livelock (decided on logical steps, not on the clock). Non-trivial = input that differs from its base file; distinct = distinct (format reader, input bytes).";
+pub const RULE: &str = "case = one valid base file (generated with 1..3 records, or a bundled test file) of one format, from which malformed inputs are derived: EVERY prefix, single-byte substitution / deletion / insertion at every offset (quick: 3 sampled (operation, byte) pairs per offset; thorough: all) with bytes from {'>','[',']',':','/',tab,space,LF,CR,digit,letter,0x00,0x80,0xFF}, byte-order marks / stray terminators / NUL / blank lines in front of complete, unterminated and truncated bodies (with and without trailing junk), dropped final newline, ragged rows, header without matrix, matrix without header, huge numbers, duplicated symbol rows; plus fixed inputs (empty, whitespace, random bytes, invalid UTF-8). Each input is given to the reader of its format (1 in 4 also to the three other readers) through a Cursor or a random chunking schedule (BufReader capacity 1..300, short reads, injected Interrupted). Oracle: Reader::new and every next() run under catch_unwind (panic = violation); the consumer stops at the first Err / None and may receive at most (input length + 2) records; a reader polling end-of-input more than 10000 times is a livelock (decided on logical steps, not on the clock). Non-trivial = input that differs from its base file; distinct = distinct (format reader, input bytes).";
 
 pub const REQUIRED: &[&str] = &[
     "reader.jaspar", "reader.jaspar16", "reader.transfac", "reader.uniprobe", "reader.protein", "input.empty",
-    "input.prefix", "input.substitution", "input.deletion", "input.insertion", "input.multibyte_insertion", "input.no_final_newline",
+    "input.prefix", "input.substitution", "input.deletion", "input.insertion", "input.multibyte_insertion", "input.framing", "input.no_final_newline",
     "input.ragged", "input.header_only", "input.matrix_only", "input.huge_number", "input.duplicate_symbol",
     "input.random_bytes", "input.invalid_utf8", "outcome.error", "outcome.records", "schedule.chunked",
     "schedule.cursor", "cross_format",
@@ -271,6 +271,43 @@ fn derive_and_feed(case: u64, rng: &mut Rng, rep: &mut Report, cfg: &Config, for
         if off + skip <= base.len() && std::str::from_utf8(&base[off + skip..]).is_ok() {
             buf.extend_from_slice(&base[off + skip..]);
             send(rng, rep, &buf, "multibyte_insertion");
+        }
+    }
+    // framing: byte-order marks and other leading junk in front of complete, unterminated and
+    // truncated bodies, with and without trailing junk (a reader that strips or skips a prefix must
+    // keep every offset it computed before consistent)
+    const PREFIXES: [&[u8]; 9] = [b"\xEF\xBB\xBF", b"\xFF\xFE", b"\xFE\xFF", b"\r\n", b"\n\n", b"\0", b"//\n", b"XX\n", b">"];
+    const SUFFIXES: [&[u8]; 6] = [b"", b"//", b"//\n", b"\r", b">", b"\x1a"];
+    for pre in PREFIXES.iter() {
+        let mut cuts: Vec<usize> = vec![base.len(), base.len().saturating_sub(1), 0];
+        if cfg.thorough() && base.len() <= 500 {
+            cuts.extend(0..base.len());
+        } else {
+            for _ in 0..8 {
+                cuts.push(rng.below(base.len() + 1));
+            }
+            // cuts right after a line end and right before one
+            let nl: Vec<usize> = (0..base.len()).filter(|&i| base[i] == b'\n').collect();
+            for _ in 0..4 {
+                if !nl.is_empty() {
+                    let i = *rng.pick(&nl);
+                    cuts.push(i);
+                    cuts.push(i + 1);
+                }
+            }
+        }
+        for cut in cuts {
+            for si in 0..2 {
+                let suf: &[u8] = if si == 0 { b"" } else { *rng.pick(&SUFFIXES) };
+                if si == 1 && suf.is_empty() {
+                    continue;
+                }
+                buf.clear();
+                buf.extend_from_slice(pre);
+                buf.extend_from_slice(&base[..cut]);
+                buf.extend_from_slice(suf);
+                send(rng, rep, &buf, "framing");
+            }
         }
     }
     // structural damage on the line level
